@@ -238,6 +238,10 @@ func runProperty(spec *PropSpec, repo, tier string, writeEvidence bool) int {
 			// not discharged
 			if f := matchFinding(findings, spec.ID, o.Name); f != nil {
 				nObl-- // known-finding obligations are listed separately, not counted as attempted proof obligations
+				if f.Property != spec.ID && !strings.Contains(","+f.AlsoProps+",", ","+spec.ID+",") {
+					// the clause (and its recorded finding) belongs to another property; it is judged there
+					continue
+				}
 				if f.Shape != "" {
 					var res *Obligation
 					for _, o2 := range r.Obligations {
